@@ -194,14 +194,17 @@ impl<'cmd> Validator<'cmd> {
 
     fn gather_requires(&mut self, matcher: &ArgMatcher) {
         debug!("Validator::gather_requires");
-        for (name, matched) in matcher
+        for (name, _) in matcher
             .args()
             .filter(|(_, matched)| matched.check_explicit(&ArgPredicate::IsPresent))
         {
             debug!("Validator::gather_requires:iter:{name:?}");
             if let Some(arg) = self.cmd.find(name) {
-                let is_relevant = |(val, req_arg): &(ArgPredicate, Id)| -> Option<Id> {
-                    let required = matched.check_explicit(val);
+                let is_relevant = |owner: &Id, (val, req_arg): &(ArgPredicate, Id)| -> Option<Id> {
+                    let required = match val {
+                        ArgPredicate::Equals(_) => matcher.check_explicit(owner, val),
+                        ArgPredicate::IsPresent => true,
+                    };
                     required.then(|| req_arg.clone())
                 };
 
